@@ -244,3 +244,71 @@ Example C14_example_delete :
     [ERepl 0 3; ERepl 3 4; ERepl 1 5; ERepl 4 6; ERepl 6 7; ERepl 7 8; ERepl 8 9; ERepl 5 10; EDel 6; ERepl 9 11; EDel 7] /\
   live (fst (mrun true false 4 st0 ops)) = [11; 10; 2].
 Proof. exact example_delete. Qed.
+
+(* ------------------------------------------------------------------ (1b) a directory that is stored into again *)
+(* Round 6.  A path directory can be stored into twice: a step that is done again after the run
+   died between PathStorage.output and the rewrite of restart.toml re-uses the path number, and a
+   run started from scratch re-uses the numbers of the load/<n>/ directories an earlier run left.
+   Storing is "write = replace": the round-trip theorem holds for EVERY disk, in particular for
+   the result of an earlier store into the same directory -- what is read back is the path stored
+   last.  (proofs/StoreAgainP.v; no new model definitions.) *)
+From Inf Require Import proofs.StoreAgainP.
+
+(* whatever the three text files held before, after write_txt they hold exactly the rendering of
+   the path being stored (the files are opened for writing, not for appending) *)
+Theorem C14_txt_written_not_appended :
+  forall (d : fsmap) (arch : str) (step : Z) (move : str) (p : list frame) (old_order old_energy old_traj : str),
+  fs_get (write_txt (fs_set (fs_set (fs_set d (pjoin arch order_txt) old_order) (pjoin arch energy_txt) old_energy) (pjoin arch traj_txt) old_traj)
+                    arch step move p) (pjoin arch order_txt) = Some (render (order_file step move p)) /\
+  fs_get (write_txt (fs_set (fs_set (fs_set d (pjoin arch order_txt) old_order) (pjoin arch energy_txt) old_energy) (pjoin arch traj_txt) old_traj)
+                    arch step move p) (pjoin arch energy_txt) = Some (render (energy_file step move p)) /\
+  fs_get (write_txt (fs_set (fs_set (fs_set d (pjoin arch order_txt) old_order) (pjoin arch energy_txt) old_energy) (pjoin arch traj_txt) old_traj)
+                    arch step move p) (pjoin arch traj_txt) = Some (render (traj_file step p)).
+Proof. exact write_txt_replaces. Qed.
+Print Assumptions C14_txt_written_not_appended.
+
+(* path A (any step, move, keep list) was stored into <home>/<pn>/ giving disk d1; then path p is
+   stored into the SAME directory, under the hypotheses of C14_store_load_roundtrip read on d1:
+   load_path returns p (frame by frame [reload p]), not A and not a mixture *)
+Theorem C14_store_again_replaces :
+  forall (d : fsmap) (stepA : Z) (moveA : str) (keepA : list str) (pA : list frame) (d1 : fsmap) (cfgA : list (str * option Z))
+         (step : Z) (move home : str) (pn : Z) (keep : list str) (p : list frame) (ncol : nat),
+  store_gen true d stepA moveA home pn keepA pA = Some (d1, cfgA) ->
+  p <> [] -> nonl move -> Forall name_ok p ->
+  Forall (fun fr => length (f_orders fr) = ncol) p ->
+  Forall no_slash keep ->
+  Forall (fun fr => isfile d1 (f_file fr) = true) p ->
+  txt_untouched (move_list (write_txt (clean_dir true (accepted_dir (archive_dir home pn)) p d1) (archive_dir home pn) step move p)
+                           (accepted_dir (archive_dir home pn)) keep p) (archive_dir home pn) ->
+  forall d2 cfg, store_gen true d1 step move home pn keep p = Some (d2, cfg) ->
+  load d2 (archive_dir home pn) = Some (map (reload (archive_dir home pn)) p).
+Proof. exact store_again_roundtrip. Qed.
+Print Assumptions C14_store_again_replaces.
+
+Theorem C14_store_again_files_exist :
+  forall (d : fsmap) (stepA : Z) (moveA : str) (keepA : list str) (pA : list frame) (d1 : fsmap) (cfgA : list (str * option Z))
+         (step : Z) (move home : str) (pn : Z) (keep : list str) (p : list frame),
+  store_gen true d stepA moveA home pn keepA pA = Some (d1, cfgA) ->
+  Forall no_slash keep ->
+  Forall (fun fr => isfile d1 (f_file fr) = true) p ->
+  forall d2 cfg, store_gen true d1 step move home pn keep p = Some (d2, cfg) ->
+  forall lf, In lf (map (reload (archive_dir home pn)) p) ->
+  exists s, l_file lf = pjoin (accepted_dir (archive_dir home pn)) (basename s) /\ isfile d2 (l_file lf) = true.
+Proof. exact store_again_files_exist. Qed.
+Print Assumptions C14_store_again_files_exist.
+
+(* non-vacuity: A = three frames in two files, B = two frames in two other files; both stores
+   succeed, each load returns the path stored last, the two differ, and A's trajectory files are
+   no longer in the directory after B was stored *)
+Example C14_example_store_again :
+  exists d pA d1 cfgA pB d2 cfgB,
+    store_gen true d 7 [115; 104] [108] 3 [] pA = Some (d1, cfgA) /\
+    load d1 (archive_dir [108] 3) = Some (map (reload (archive_dir [108] 3)) pA) /\
+    pB <> [] /\ Forall name_ok pB /\ Forall (fun fr => length (f_orders fr) = 2%nat) pB /\
+    Forall (fun fr => isfile d1 (f_file fr) = true) pB /\
+    store_gen true d1 7 [115; 104] [108] 3 [] pB = Some (d2, cfgB) /\
+    load d2 (archive_dir [108] 3) = Some (map (reload (archive_dir [108] 3)) pB) /\
+    length pA = 3%nat /\ length pB = 2%nat /\
+    load d2 (archive_dir [108] 3) <> load d1 (archive_dir [108] 3) /\
+    (forall fr, In fr pA -> isfile d2 (l_file (reload (archive_dir [108] 3) fr)) = false).
+Proof. exact example_store_again. Qed.
